@@ -6,8 +6,8 @@ scratch=$(mktemp -d /tmp/eval-seeded-XXXXXX)
 cp -r /repo/lbry /repo/tests /repo/setup.cfg /repo/setup.py /repo/README.md "$scratch"/ 2>/dev/null
 ( cd "$scratch" && patch -s -p1 < "$dir/patch.diff" ) || { echo "PATCH-FAILED"; rm -rf "$scratch"; exit 3; }
 export PROTOCOL_BUFFERS_PYTHON_IMPLEMENTATION=python
-( cd "$dir" && PYTHONPATH=/tmp/lbry-shims:"$scratch" timeout 300 /venv/bin/python demo.py >/dev/null 2>&1 ); with=$?
-( cd "$dir" && PYTHONPATH=/tmp/lbry-shims:/repo timeout 300 /venv/bin/python demo.py >/dev/null 2>&1 ); without=$?
+( cd "$dir" && PYTHONPATH=/verif/simverif/shims:"$scratch" timeout 300 /venv/bin/python demo.py >/dev/null 2>&1 ); with=$?
+( cd "$dir" && PYTHONPATH=/verif/simverif/shims:/repo timeout 300 /venv/bin/python demo.py >/dev/null 2>&1 ); without=$?
 suite=$(cd "$scratch" && timeout 900 /venv/bin/python -m pytest -q -p no:cacheprovider --timeout=900 --continue-on-collection-errors 2>&1 | tail -1)
 echo "demo with change: exit $with ; on /repo: exit $without ; suite: $suite"
 cd /verif && VERIF_REPO="$scratch" timeout 3000 ./check "$id" "$@" 2>&1 | grep -E "VIOLATION|kind=|KNOWN-FINDING|HARNESS-ERROR|^C[0-9]+ (quick|thorough)" | cut -c1-400
